@@ -1,9 +1,11 @@
 /-
   G9.Driver.Frame — line-protocol command of the receive-loop model (C13):
     frames <msize> <dotu> <gate> <chunk> <chunk> …     (hex chunks, in arrival order)
+    framesv <server dotu> <msize> <dotu> <gate> <chunk> …   (the same, Tversions in the stream take effect)
   answers  F<len> … [D] R<unconsumed>
 -/
 import G9.Frame
+import G9.FrameV
 import G9.Driver.Text
 namespace G9.Driver
 open G9 G9.Frame G9.Text
@@ -20,6 +22,14 @@ def frames (cmd : String) (args : List String) : Option String :=
     let (s, outs) := feedAll cfg {} cs
     let nf := (outs.filter (fun o => match o with | .frame _ => true | .drop => false)).length
     -- canonical form shared with the harness: frames executed, connection ended?
+    some s!"frames={nf} dropped={if s.dead then 1 else 0}"
+  | "framesv", sd :: ms :: du :: gate :: chunks => do
+    -- the body may renegotiate: msize and dialect are threaded through the frames (G9.FrameV)
+    let sd ← bool? sd
+    let cfg : Cfg := { msize := ← nat? ms, dotu := ← bool? du, gate := ← bool? gate }
+    let cs ← chunks.mapM bytes?
+    let (s, outs) := feedAllV (afterFrame sd) { cfg := cfg } cs
+    let nf := (outs.filter (fun o => match o with | .frame _ => true | .drop => false)).length
     some s!"frames={nf} dropped={if s.dead then 1 else 0}"
   | "cseg", _ => some "*"      -- client-side runs are judged by the harness oracle only
   | _, _ => none
